@@ -205,6 +205,26 @@ def main():
                 po["discharged"] += 1
             else:
                 po["broken"].append("theorem %s depends on %s" % (full, sorted(ax - ALLOWED_AXIOMS)))
+    # tie by translation of the report constructors (C17)
+    wtie = None
+    if prop == "C17" and not args.replay:
+        wtie = props.run_wiring()
+        if wtie["status"] == "proved":
+            listed, err = audit([props.REP_MODULE])
+            by = {d.get("theorem"): d for d in listed if "theorem" in d}
+            for t in props.REP_THEOREMS:
+                full = props.REP_MODULE + "." + t
+                d = by.get(full)
+                po["obligations"] += 1
+                if d is None:
+                    po["broken"].append("theorem missing: " + full)
+                    continue
+                ax = set(d.get("axioms", []))
+                po["axioms"][full] = sorted(ax)
+                if ax <= ALLOWED_AXIOMS:
+                    po["discharged"] += 1
+                else:
+                    po["broken"].append("theorem %s depends on %s" % (full, sorted(ax - ALLOWED_AXIOMS)))
     # the three translation ties composed (C03, C05): translated decoder, then translated score functions = FIRST / model scores
     e2e = "not used by this property"
     if prop in ("C03", "C05") and not args.replay:
@@ -240,6 +260,9 @@ def main():
     tie_lost = bool(ftie and ftie["status"] == "lost" and ftie["relevant"])
     tab_lost = bool(ttie and ttie["status"] == "lost" and ttie["relevant"])
     dec_lost = bool(dtie and dtie["status"] == "lost" and dtie["relevant"])
+    wir_lost = bool(wtie and wtie["status"] == "lost")
+    if wir_lost and tier == "quick":
+        tier = "thorough"        # C17: the thorough streams are the widened search
     if (tie_lost or tab_lost or dec_lost) and tier == "quick":
         tier_run = "escalated"
     else:
@@ -278,6 +301,10 @@ def main():
             po["broken"].append(msg)
         else:
             print("NOTE: " + msg + "; this property's domain is enumerated by the correspondence, which stands")
+    if wir_lost:
+        po["broken"].append("tie by translation lost: the report constructors of /repo/v3/report are understood by go/wiring but what their fields are "
+                            "initialised from is no longer the schema of C17 (Props/SrcRep.lean does not check: %s); the search was widened (%d "
+                            "evaluations)" % (wtie["note"][:500], outcome.evaluations))
     if dec_lost:
         po["broken"].append("tie by translation lost: the source text of %s is understood by go/decoders / go/tables but is no longer provably "
                             "the model's (Proofs/Decoders.lean or Proofs/Tables.lean does not check: %s); the search was widened (%s streams, "
@@ -337,6 +364,9 @@ def main():
                             "lost": "the source is understood but no longer provably the model; search widened"}[dtie["status"]]}
                 if dtie else "not used by this property"),
             "end_to_end_source": e2e,
+            "report_wiring_translation": ({"status": wtie["status"], "translator": wtie["translator"],
+                                           "constructors_outside_the_translators_subset": wtie["not_understood"],
+                                           "translator_output": wtie["note"][:600], "module": props.REP_MODULE} if wtie else "not used by this property"),
             "names_tables_source": ("go/extract (source translator)" if props.NAMES_SOURCE == "ast" else
                                     "behavioural probe of the names functions on -130..130 (fallback; claims for integers outside that "
                                     "range are not covered in this run): " + props.NAMES_NOTE[:300]) if getattr(spec, "needs_extract", False) else "not used",
